@@ -8,16 +8,19 @@ package climate
 // decided here.
 
 //@ func calcVaporPressure(temperature) returns (r)
+//@   locals ta, z, p1, p2, p3, p4
 //@   inline
 //@   requires temperature > -273.16
 //@   ensures [C20.vapour-pressure-positive] r > 0
 
 //@ func calcWetBulb(tDryBulb, tDewPoint, hEnthalpy, pAtmosphere) returns (r)
+//@   locals rtb, dx, xmid, psat, wstar, fmid, i
 //@   ensures [C20.wet-bulb-bracket] min(tDewPoint, tDryBulb) <= r && r <= max(tDewPoint, tDryBulb)
 //@   ensures [C20.wet-bulb-ordered] implies(tDewPoint <= tDryBulb, tDewPoint <= r && r <= tDryBulb)
 //@   loop 0 invariant (dx >= 0 && tDewPoint <= rtb && rtb + dx <= tDryBulb) || (dx <= 0 && tDryBulb <= rtb + dx && rtb <= tDewPoint)
 
 //@ func climateVariables(dryBulb, humidity, elevation, vaporPressure, dewPoint, wetBulb, deltaT)
+//@   locals nDays, idx, pa, i, dryBulbTemp, relativeHumidity, vp, tdew, e, twetBulbTemp
 //@   kernel
 //@   states none
 //@   noalias
